@@ -571,6 +571,8 @@ def derive_features(scn):
             f.add('bigentries')
     if eff['scaling']:
         f.add('scaling')
+    if b is not None and any(v is not None and 0.0 < abs(v) < 1e-300 for side in (b['lower'], b['upper']) if side for v in side):
+        f.add('denormal_bound')
     if scn.get('sets'):
         f.add('sets')
     if scn.get('reg'):
